@@ -24,7 +24,8 @@ TEXTS = {
     "mb": '/// entry\nfoo: {\n  lda baz\n  baz: rts\n}\nfoo2: lda foo.baz // ü\U0001F600 tail\n.const c1 = 4\n  ldx #c1\n.segment "default" {\n  tbl: .byte 1, 2\n}\n',
     "mx": '.import * from "inc.asm"\nfoo: {\n  lda (\n  bar: nop\n}\n  sta ext\n',
     "ia": "ext: nop\n",
-    "ib": "/// doc ñ\next: rts\nother2: .byte 1 // ñ\n.segment \"default\" {\n  itbl: .byte 3\n}\n",
+    "ib": ".import * from \"inc2.asm\"\n/// doc ñ\next: rts\nother2: .byte 1 // ñ\n.segment \"default\" {\n  itbl: .byte 3\n}\n  lda deep\n",
+    "i2": "deep: rts // ü second import level\n",
     "ca": '[build]\nentry = "main.asm"\n',
     "cb": '[build]\nentry = "src/start.asm"\n',            # names a file that does not exist (yet)
     "-": "",
@@ -32,8 +33,8 @@ TEXTS = {
     "oth": "oth: nop\n  jmp oth\n",
 }
 # two disk layouts: A = the entry file exists on disk, B = it only ever exists as an unsaved buffer
-LAYOUTS = {"A": {"main.asm": "ma", "inc.asm": "ia", "other.asm": "oth", "mos.toml": "ca"},
-           "B": {"main.asm": "-", "inc.asm": "ia", "other.asm": "oth", "mos.toml": "ca"}}
+LAYOUTS = {"A": {"main.asm": "ma", "inc.asm": "ia", "inc2.asm": "i2", "other.asm": "oth", "mos.toml": "ca"},
+           "B": {"main.asm": "-", "inc.asm": "ia", "inc2.asm": "i2", "other.asm": "oth", "mos.toml": "ca"}}
 MNEMONICS = set("adc and asl bcc bcs beq bit bmi bne bpl brk bvc bvs clc cld cli clv cmp cpx cpy dec dex dey eor inc inx iny jmp jsr lda ldx ldy lsr "
                 "nop ora pha php pla plp rol ror rti rts sbc sec sed sei sta stx sty tax tay tsx txa txs tya import from const byte as".split())
 
@@ -157,20 +158,28 @@ def probes_for(final_buf, texts, seed_key, disk):
     eff = {f: (texts[final_buf[f]] if f in final_buf else TEXTS[disk[f]]) for f in disk}
     probes = []
     for _ in range(6):
-        f = rnd.choice(["main.asm", "main.asm", "inc.asm", "other.asm"])
+        f = rnd.choice(["main.asm", "main.asm", "inc.asm", "inc2.asm", "other.asm"])
         kind = rnd.choice([k for k in L.ALL_KINDS if k != "rename"])
         ids = ident_positions(eff[f])
         ln, ch = rnd.choice(ids) if ids and rnd.random() < 0.7 else inrange_position(eff[f], rnd)
         probes.append((kind, f, ln, ch))
-    f = rnd.choice(["main.asm", "main.asm", "inc.asm", "other.asm", "nonexist.asm"])
+    f = rnd.choice(["main.asm", "main.asm", "inc.asm", "inc2.asm", "other.asm", "nonexist.asm"])
     ln, ch = wild_position(eff.get(f, "x\n"), rnd)
-    probes.append((rnd.choice(L.ALL_KINDS), f, ln, ch))                                   # one wild request, last
+    kind = rnd.choice(L.ALL_KINDS + ["rename"])
+    if kind == "rename":                                                                 # new names that are no valid identifiers: the server has to survive them
+        ids = ident_positions(eff.get(f, "")) or [(ln, ch)]
+        ln, ch = rnd.choice(ids)
+        probes.append((kind, f, ln, ch, rnd.choice(["1x", "", "a b", "super", "lda", "é", "x.y", "-"])))
+    else:
+        probes.append((kind, f, ln, ch))                                                  # one wild request, last
     return probes
 
 
 def run_probes(ses, probes):
-    for kind, f, ln, ch in probes:
-        if not ses.request(kind, f, ln, ch, final=True):
+    for pr in probes:
+        kind, f, ln, ch = pr[:4]
+        kw = {"new_name": pr[4]} if len(pr) > 4 else {}
+        if not ses.request(kind, f, ln, ch, final=True, **kw):
             break
 
 
@@ -405,7 +414,11 @@ def main(tier):
     longer = [c for c in parse_cases(r2) if len(c[1]) >= 5]
     rnd.shuffle(longer)
     longer = longer[:60 if tier == "quick" else 800]
-    scripts = [("tlc", script_of_hist(h), lay) for lay, h in hists] + [("sim", script_of_hist(h), lay) for lay, h in longer]
+    # three fixed sessions whose last request is out of range in the three ways the pinned reading crashes on
+    fixed = [[("open", "main.asm", "ma", TEXTS["ma"]), ("req", "prepareRename", "main.asm", 2, 400)],
+             [("open", "main.asm", "ma", TEXTS["ma"]), ("req", "completion", "main.asm", 400, 0)],
+             [("open", "main.asm", "ma", TEXTS["ma"]), ("req", "completion", "main.asm", 2, 15)]]
+    scripts = [("fixed", sc, "A") for sc in fixed] + [("tlc", script_of_hist(h), lay) for lay, h in hists] + [("sim", script_of_hist(h), lay) for lay, h in longer]
     nty, nrand = (60, 120) if tier == "quick" else (600, 1000)
     scripts += [("typing", typing_script(rnd, i), "A") for i in range(nty)]
     scripts += [("random", random_script(rnd, i, "AB"[i % 2]), "AB"[i % 2]) for i in range(nrand)]
@@ -453,7 +466,7 @@ def main(tier):
         elif field == "range":
             e["ranges"] = e["ranges"] + [{"f": "main.asm", "r": [0, 0, 0, 9999]}]
         else:
-            m["shownH"][1]["d"] = '[[0,0,0,1,"x"]]'
+            [x for x in m["shownH"] if x["f"] == "main.asm"][0]["d"] = '[[0,0,0,1,"x"]]'
             m["lastRound"] = ["inc.asm", "main.asm", "other.asm"]
         muts.append(m)
     mv = V.judge(judge_mod, muts, cfg=judge_cfg, env={"DEVS": devs_now}, tag="C14-selftest")[0] if muts else []
